@@ -459,5 +459,7 @@ Lemma source_shape :
      ("call", "it.readNextChunk"); ("if", "!it.readNextChunk(it.db.B)"); ("return", "false"); ("endif", "");
      ("endif", ""); ("call", "storage.SeriesRef"); ("return", "true"); ("endfor", "")]%string /\
   streamedEncodeUvarintRHS = "binary.PutUvarint(uvarintEncodeBuf, uint64(v-prev))"%string /\
+  readNextChunkDbBAssigns = ["append(remainder, decoded...)"; "decoded"; "append(remainder, uncompressedData...)";
+                             "uncompressedData"]%string /\
   In ("if", "v < prev")%string encodeEvents /\ In ("call", "buf.PutUvarint64")%string encodeEvents.
 Proof. repeat split; try reflexivity; cbn; tauto. Qed.
